@@ -89,6 +89,16 @@ def mesh_checks(name, rng, report, tier):
     bp = [float(x) for x in g.pw_start]
     grids = [sorted(set(bp + [(bp[0] + bp[1]) / 2])),
              sorted(set(bp + [bp[-2] + (bp[-1] - bp[-2]) / 4, bp[-2] + (bp[-1] - bp[-2]) / 2, (bp[0] + bp[1]) / 2]))]
+    # grids graded geometrically towards every interior break point from both sides (ratios 1/2, 1/4, 1/10; the narrowest root next to
+    # a corner is 2^-20, 4^-10, 10^-7 wide): a piece is chosen by exact comparison with the break points, never "close to" them
+    if len(bp) > 2:
+        for q, kmax in ((0.5, 20), (0.25, 10), (0.1, 7)):
+            pts = set(bp)
+            for b in bp[1:-1]:
+                for k in range(1, kmax + 1):
+                    pts.add(b - q ** k)
+                    pts.add(b + q ** k)
+            grids.append(sorted(x for x in pts if bp[0] <= x <= bp[-1]))
     for gi, grid in enumerate(grids):
         for slabs in (1, 2, 3):
             tgrid = [k / slabs for k in range(slabs + 1)]
